@@ -112,7 +112,7 @@ def planted_cases():
 @st.composite
 def any_cases(draw, max_pairs=256):
     g = draw(games.any_games(max_states=8, max_pairs=max_pairs))
-    return dict(kind="solver", game=g, theta=draw(st.sampled_from(THETAS)))
+    return dict(kind="solver", game=g, theta=draw(st.sampled_from(THETAS)), sprune=draw(st.booleans()))
 
 
 @st.composite
@@ -237,7 +237,7 @@ def sample_view(case):
 
 
 # ----------------------------------------------------------------------------- the check
-def run_solver_api(game, theta):
+def run_solver_api(game, theta, prune=False):
     """check_game + init_states + Solver(threshold).solve_reachability; returns (p_hat, sweeps)."""
     r = repo()
     tad = r.tad
@@ -247,7 +247,12 @@ def run_solver_api(game, theta):
         sg.check_game()
         state_list = sg.init_states()
         solver = tad.Solver(state_list=state_list, threshold=theta)
-        _, sweeps = solver.solve_reachability(g["transition_list"], g["final_states"], False)
+        try:
+            _, sweeps = solver.solve_reachability(g["transition_list"], g["final_states"], prune)
+        except ValueError as e:
+            if prune and "no solution" in str(e).lower():
+                return [s.reach_probability for s in state_list], None
+            raise
         return [s.reach_probability for s in state_list], sweeps
 
 
@@ -344,15 +349,25 @@ def check_small(case, v):
     if case["kind"] == "solver":
         theta = case["theta"]
         v.cls("api_solver", f"theta={theta:g}")
+        sprune = bool(case.get("sprune"))
         try:
-            phat, sweeps = run_solver_api(game, theta)
+            phat, sweeps = run_solver_api(game, theta, sprune)
         except BudgetExceeded:
             raise
         except Exception as e:
             o = classify_exception(e)
             v.fail("solver-raises", o.brief(), sig=f"{type(e).__name__}@{o.where}")
             return v
-        compare_exact(v, game, facts, phat, pstar, theta, sweeps, f"Solver(threshold={theta:g})")
+        label = f"Solver(threshold={theta:g}, prune={sprune})"
+        if sweeps is None:
+            # the no-solution error was raised (pruning requested): legitimate only if state 0 is worth 0 (or its
+            # value is below the numerical tolerance); the values computed so far are still checked
+            v.cls("solver_no_solution")
+            if pstar[0] > max(theta * 100, 1e-6):
+                v.fail("nosol-but-positive", f"{label} raised no-solution, exact value of state 0 is {pstar[0]}")
+            sweeps = 0
+            jac_ok = False
+        compare_exact(v, game, facts, phat, pstar, theta, sweeps, label)
         return v
     # StochasticGame.solve(), requested mode + the other mode for the DIFF clause
     prune = case["prune"]
